@@ -413,7 +413,7 @@ def gen_c14(tier, R):
                 out.append(bi(1, n, [a]))
     for n in names:
         out.append(bi(1, n, []))
-        for a in POOL[::2]:
+        for a in POOL:
             out.append(bi(1, n, [a]))
         for _ in range(40 if tier == 'quick' else 2000):
             out.append(bi(1, n, [R.choice(POOL) for _ in range(R.choice([2, 2, 3]))]))
